@@ -650,6 +650,9 @@ def hilberthuang_1d(infr, inam, freq_edges, mode='energy'):
        https://doi.org/10.1098/rspa.1998.0193
 
     """
+    infr, inam = ensure_2d([infr, inam], ['infr', 'inam'], 'hilberthuang_1d')
+    ensure_equal_dims((infr, inam), ('infr', 'inam'), 'hilberthuang_1d')
+
     specs = np.zeros((len(freq_edges) - 1, infr.shape[1]))
 
     # Remove values outside the bin range
